@@ -231,20 +231,29 @@ def decodeAllAux (fuel : Nat) (start : Nat) : Nat → Bytes → Nat → List (Cm
       let (cs, e) := decodeAllAux fuel start k rest off'
       ((c, start + off') :: cs, e)
 
+/-- the parser loop on a decoder whose `offset` field already holds `pre`
+    (a long-lived decoder; `pre = 0` for the fresh decoder the parsers create) -/
+def decodeAllFrom (start pre : Nat) (inp : Bytes) : List (Cmd × Nat) × DecErr :=
+  decodeAllAux (inp.length + 1) start (inp.length + 1) inp pre
+
 def decodeAll (start : Nat) (inp : Bytes) : List (Cmd × Nat) × DecErr :=
-  decodeAllAux (inp.length + 1) start (inp.length + 1) inp 0
+  decodeAllFrom start 0 inp
 
 /-! ## target framing: `proto.Writer.WriteArgs` -/
 
-/-- the argument kinds the tool passes to `WriteArgs` (floats, times and
-    `BinaryMarshaler`s are not used on the replay path and are left to
-    `strconv`). -/
+/-- the argument kinds the tool passes to `WriteArgs`. A `float64` (zset scores
+    on the snapshot path, `rdb_object.go` `ZSetParser.ExecCmd`) is carried as the
+    decimal text `strconv.AppendFloat(f, 'f', -1, 64)` produces: the digits are
+    left to `strconv` (the harness checks text = FormatFloat and ParseFloat(text)
+    = f on the real writer), the framing of that text is modelled. `time.Time`
+    and `BinaryMarshaler` arguments are not used by the tool. -/
 inductive Arg
   | bytes (b : Bytes)      -- []byte, net.IP
   | str (b : Bytes)        -- string
   | int (i : Int)          -- int, int8 … int64, time.Duration
   | uint (n : Nat)         -- uint, uint8 … uint64
   | bool (b : Bool)
+  | float (text : Bytes)   -- float32/float64, as its `'f', -1, 64` rendering
   | nil
   deriving Repr
 
@@ -256,6 +265,7 @@ def Arg.payload : Arg → Bytes
   | .uint n => natToDec n
   | .bool true => natToDec 1
   | .bool false => natToDec 0
+  | .float t => t
   | .nil => []
 
 /-- `WriteArgs`: `*<len>\r\n`, then every argument as a bulk string -/
@@ -272,9 +282,11 @@ def boundaries (start : Nat) : List (List Bytes) → List Nat
 
 /-! ## specification vocabulary used by the C12 theorems -/
 
-/-- a command as the source sends it: non-empty name, and sizes a Go slice can have -/
+/-- a command as the source sends it: non-empty ASCII name (Go lower-cases the
+    name with `strings.ToLower`, which is byte-wise only on ASCII; arguments are
+    arbitrary bytes), and sizes a Go slice can have -/
 def WF (c : List Bytes) : Prop :=
-  c.headD [] ≠ [] ∧ c.length < 2^63 ∧ ∀ a ∈ c, a.length < 2^63
+  c.headD [] ≠ [] ∧ c.length < 2^63 ∧ (∀ a ∈ c, a.length < 2^63) ∧ ∀ b ∈ c.headD [], b < 128
 
 /-- what the parser is expected to report for the sent command `c` -/
 def cmdOf (c : List Bytes) : Cmd := ⟨lower (c.headD []), c.tail⟩
